@@ -45,6 +45,7 @@ func genApproval(outDir string) (string, error) {
 	var notes []string
 	note := func(f string, a ...any) { notes = append(notes, fmt.Sprintf(f, a...)) }
 	pendingF, tallyF := "", ""
+	cbF := "" // the approval callbacks: the field of type []api.WriteApprovalCallbackFunc / []func(*api.Message)
 	tracked, mutexes := map[string]bool{}, map[string]bool{}
 	for _, f := range files {
 		ast.Inspect(f, func(n ast.Node) bool {
@@ -72,6 +73,19 @@ func genApproval(outDir string) (string, error) {
 						case *ast.SelectorExpr:
 							if s := exprString(t); s == "sync.Mutex" || s == "sync.RWMutex" {
 								mutexes[nm.Name] = true
+							}
+						case *ast.ArrayType:
+							if t.Len == nil {
+								switch el := t.Elt.(type) {
+								case *ast.SelectorExpr:
+									if strings.Contains(el.Sel.Name, "WriteApproval") {
+										cbF = nm.Name
+									}
+								case *ast.FuncType:
+									if el.Params != nil && len(el.Params.List) == 1 && exprString(el.Params.List[0].Type) == "*api.Message" && el.Results == nil {
+										cbF = nm.Name
+									}
+								}
 							}
 						}
 					}
@@ -235,6 +249,69 @@ func genApproval(outDir string) (string, error) {
 		note("the timeout function does not remove the pending entry under %s and then send its result with no mutex of the feature held", mPending)
 	}
 
+	// the arrival of a write: on the path from the feature's message handler (exported API HandleMessage) the pending
+	// entry is written and the timer armed BEFORE the write is handed to any approval callback (a `go` / call of an
+	// element of the callbacks field - directly, through a helper, a local copy of the slice or a wrapping closure).
+	// A callback may answer at once: a verdict that finds no pending entry is dropped (ApproveOrDenyWrite's lookup).
+	var arrTr []hbEv
+	registeredFirst, armedFirst := false, false
+	if cbF == "" {
+		// fallback: the field the exported registration API appends to
+		if reg := funcs[typ+".AddWriteApprovalCallback"]; reg != nil {
+			ast.Inspect(reg.Body, func(n ast.Node) bool {
+				if as, ok := n.(*ast.AssignStmt); ok && len(as.Lhs) == 1 {
+					if sel, ok := as.Lhs[0].(*ast.SelectorExpr); ok {
+						if id, ok := sel.X.(*ast.Ident); ok && id.Name == elRecvName(reg) {
+							cbF = sel.Sel.Name
+						}
+					}
+				}
+				return true
+			})
+		}
+	}
+	if hm := funcs[typ+".HandleMessage"]; hm == nil || cbF == "" {
+		note("arrival: method %s.HandleMessage (%v) / the approval callbacks field (%q) not found", typ, hm != nil, cbF)
+	} else {
+		in4 := &hbInterp{funcs: funcs, typ: typ, chans: map[string]bool{pendingF: true, cbF: true}, mutexes: mutexes, counters: map[string]bool{}, held: map[string]int{}, epoch: map[string]int{}, elemFields: map[string]bool{cbF: true}}
+		in4.walkFunc(&hbFrame{fd: hm, recv: elRecvName(hm), alias: map[string]string{}})
+		reg, arm, pres := -1, -1, -1
+		for i, e := range in4.trace {
+			switch {
+			case e.kind == "write" && e.detail == "field:"+pendingF && reg < 0:
+				reg = i
+			case e.kind == "arm" && arm < 0:
+				arm = i
+			case (e.kind == "spawn" || e.kind == "callelem") && e.fun == "elem:"+cbF && pres < 0:
+				pres = i
+			}
+			switch {
+			case e.kind == "write" && e.detail == "field:"+pendingF, e.kind == "arm", e.kind == "read" && e.detail == "field:"+cbF:
+				arrTr = append(arrTr, e)
+			case e.kind == "spawn" || e.kind == "callelem":
+				e.detail = "present " + e.fun
+				if e.fun == "static" || e.fun == "dynamic" {
+					e.detail = e.fun
+				}
+				arrTr = append(arrTr, e)
+			}
+		}
+		switch {
+		case pres < 0:
+			note("arrival: no approval callback (element of %s) is started or called on the path from HandleMessage", cbF)
+		case reg < 0 || arm < 0:
+			note("arrival: the pending entry (%s) is not written / no timer is armed on the path from HandleMessage", pendingF)
+		default:
+			registeredFirst, armedFirst = reg < pres, arm < pres
+			if !registeredFirst {
+				note("arrival: the write is handed to the approval callbacks BEFORE its pending entry is registered: a verdict given at once finds nothing pending and is dropped")
+			}
+			if !armedFirst {
+				note("arrival: the write is handed to the approval callbacks BEFORE its timer is armed")
+			}
+		}
+	}
+
 	show := func(tr []hbEv) string {
 		var s []string
 		for _, e := range tr {
@@ -289,11 +366,17 @@ func genApproval(outDir string) (string, error) {
 	sb.WriteString("def stopGuardsEveryResult : Bool := " + b2(stopGuards) + "\n")
 	sb.WriteString("/-- the timeout function: remove the pending entry under the registry's mutex, then send with no mutex held -/\n")
 	sb.WriteString("def timeoutTwoHalves : Bool := " + b2(timeoutTwoHalves) + "\n")
+	sb.WriteString("/-- arrival of a write, from HandleMessage (helpers inlined): timer, pending entry, presentation to the callbacks -/\n")
+	sb.WriteString("def arrivalTrace : List String := " + show(arrTr) + "\n")
+	sb.WriteString("/-- the pending entry of a write is registered before the write is presented to any approval callback -/\n")
+	sb.WriteString("def registeredBeforePresented : Bool := " + b2(registeredFirst) + "\n")
+	sb.WriteString("/-- … and its timer is armed before that -/\n")
+	sb.WriteString("def armedBeforePresented : Bool := " + b2(armedFirst) + "\n")
 	sb.WriteString("def notes : List String := [" + strings.Join(qn, ", ") + "]\n\n")
 	sb.WriteString("end Spine.Generated.Approval\n")
 	if err := writeFile(outDir, "Approval.lean", sb.String()); err != nil {
 		return "", err
 	}
-	return fmt.Sprintf("pending %q under %q, tally %q under %q: verdictTwoSections=%v commitOneSection=%v recheck=%v stopResultUsed=%v stopGuardsEveryResult=%v timeoutTwoHalves=%v, %d note(s)",
-		pendingF, mPending, tallyF, mTally, twoSections, commitOne, recheck, stopUsed, stopGuards, timeoutTwoHalves, len(notes)), nil
+	return fmt.Sprintf("pending %q under %q, tally %q under %q: verdictTwoSections=%v commitOneSection=%v recheck=%v stopResultUsed=%v stopGuardsEveryResult=%v timeoutTwoHalves=%v; callbacks %q: registeredBeforePresented=%v armedBeforePresented=%v, %d note(s)",
+		pendingF, mPending, tallyF, mTally, twoSections, commitOne, recheck, stopUsed, stopGuards, timeoutTwoHalves, cbF, registeredFirst, armedFirst, len(notes)), nil
 }
